@@ -19,6 +19,12 @@ Theorem C12_gap_raw : forall g stk ip line rest n,
 Proof. exact gap_raw_lex. Qed.
 Print Assumptions C12_gap_raw.
 
+(* a line comment that ends the input, with no line break after it, yields no token either *)
+Theorem C12_line_comment_at_end : forall st line b n, gap_mode (top (ls_stack st)) = true -> forallb not_lf b = true ->
+  lex_run (S (S n)) st line ("/" :: "/" :: b) = LOk [] /\ forall f, lex_filtered (S (S n)) f st line ("/" :: "/" :: b) = TOk [].
+Proof. exact line_comment_at_end. Qed.
+Print Assumptions C12_line_comment_at_end.
+
 (* what LessLexer.token() hands to the parser across a gap, for every token history f *)
 Theorem C12_gap_filtered : forall g f stk ip line rest n,
   gap_wf g = true -> forallb gap_mode stk = true -> nongap_start rest = true ->
